@@ -1057,6 +1057,7 @@ func ruleNotificationErrorsDropped(c *chk.Ctx, d *dispatchModel) {
 	f := d.invoke
 	hcall, _ := d.handlerCall.(*ssa.Call)
 	if hcall == nil {
+		c.Undecided("PAIR.noteerr", nil, "ruleNotificationErrorsDropped: anchor", 0, "the code this rule is anchored in was not found (hcall == nil)")
 		return
 	}
 	n := 0
